@@ -204,12 +204,13 @@ def check_null(ctx, spec, tree, opts, tag=""):
         s = model.is_sample(spec, u)
         ctx.check(tree.num_samples(u) == int(s), W, f"num_samples({u}) = {tree.num_samples(u)}")
         ctx.check(list(tree.samples(u)) == ([u] if s else []), W, f"samples({u})")
+        ctx.check(tree.num_tracked_samples(u) == int(u in tracked), W,
+                  f"num_tracked_samples({u}) = {tree.num_tracked_samples(u)}")
         ctx.check(tree.parent(u) == -1 and tree.edge(u) == -1, W, f"parent/edge({u})")
     check_linked_children(ctx, tree, n, mroots, W + ".roots")
     ctx.check(sorted(tree.roots) == mroots, W, f"roots {tree.roots} expected {mroots}")
     ctx.check(tree.num_samples() == len(smp), W, "num_samples()")
     ctx.check(tree.num_tracked_samples() == len(tracked), W, "num_tracked_samples()")
-    return tracked
 
 
 # ------------------------------------------------------------------ interpreter
@@ -619,13 +620,15 @@ NT_H = ("tree sequence has >=2 trees and the history contains a direction revers
         "followed by prev, or a seek that wraps around through the null state, or navigation "
         "continued on a copy")
 SUBCHECKS = [
-    SubCheck("C06.histories", run_history, strategy=history_case, quick=8000, thorough=120000, rule=NT_H,
+    SubCheck("C06.histories", run_history, strategy=history_case, quick=5000, thorough=80000, rule=NT_H,
              floors={"multi_tree": 0.3, "reversal": 0.2, "seek_null_right": 0.05, "seek_null_left": 0.05,
                      "seek_current": 0.1, "clear_prev": 0.02, "seek_wrap": 0.03, "continue_on_copy": 0.1,
                      "next_to_null": 0.1, "prev_to_null": 0.1, "bad_seek": 0.1, "sample_lists": 0.2,
-                     "tracked": 0.1, "internal_sample": 0.1, "mutations": 0.2}),
-    SubCheck("C06.exhaustive_ops", run_exhaustive, strategy=exhaustive_case, quick=1000, thorough=2500,
+                     "tracked": 0.2, "internal_sample": 0.2, "mutations": 0.2, "null_reentry": 0.2,
+                     "cleared_with_tracked_below_internal_sample": 0.05, "tracked_internal_reentered": 0.05}),
+    SubCheck("C06.exhaustive_ops", run_exhaustive, strategy=exhaustive_case, quick=600, thorough=1500,
              rule="tree sequence with >=2 trees; every operation sequence of length <=3 (quick) / <=4 "
                   "(thorough) over the alphabet is executed on a new Tree and its final state compared",
-             floors={"multi_tree": 0.3, "T=4": 0.03}),
+             floors={"multi_tree": 0.4, "T=4": 0.05, "T=3": 0.1, "tracked": 0.2, "internal_sample": 0.15,
+                     "sample_lists": 0.25, "mutations": 0.15}),
 ]
